@@ -2,6 +2,7 @@ package cache
 
 import (
 	"context"
+	"time"
 )
 
 // ---------------------------------------------------------------------------
@@ -112,6 +113,26 @@ func verifL_Race_Index() {
 	}
 	verifThread("index op A", func() { op(opA, "x") })
 	verifThread("index op B", func() { op(opB, "y") })
+	verifFinally(func() { verifReach("both operations completed") })
+	verifRunThreads()
+}
+
+// Two concurrent Invalidate calls under the race predicate: every access to the Invalidator's
+// fields must be ordered by its mutex, also on the very first calls (SkipInterval still zero).
+func verifL_Race_Invalidator() {
+	verifOption("races")
+	verifOption("nofuse")
+	inv := &Invalidator{}
+	if verifChoice("skipIntervalSet", 2) == 1 {
+		inv.SkipInterval = time.Second
+	}
+	ran := 0
+	inv.Callbacks = append(inv.Callbacks, func(ctx context.Context) { ran++ })
+	now := verifInt64("now")
+	verifAssume(now >= verifT0 && now <= verifT1)
+	verifClockFn = func() int64 { return now }
+	verifThread("Invalidate", func() { _ = inv.Invalidate(context.Background()) })
+	verifThread("Invalidate", func() { _ = inv.Invalidate(context.Background()) })
 	verifFinally(func() { verifReach("both operations completed") })
 	verifRunThreads()
 }
